@@ -257,9 +257,44 @@ def gen_stagger(rng, tier):
     return cfg + "|" + ";".join(ops)
 
 
+def gen_extreme(rng, tier):
+    """numeric extremes: 45..120 tries, every attempt answered PROMPTLY with an error rcode, so
+    that rounds 30..70+ are reached while the clock (almost) stands still; no maxtimeout or a huge
+    one, timeouts up to INT_MAX: the waits are the saturating doubling itself.  Nothing may time
+    out (the clock never advances as far as the base timeout), every re-send has its reply."""
+    S = rng.choice([1, 1, 1, 2])
+    T = rng.choice([45, 50, 64, 65, 70, 100, 120 // S])
+    timeout = rng.choice([250, 2000, 5000, 2147483, 2147483647])
+    cfg = "servers=%d tries=%d timeout=%d idseq=%d qcachettl=0 seed=%d" % (
+        S, T, timeout, rng.choice([1, 100, 65530]), rng.randint(1, 10 ** 6))
+    if rng.random() < 0.25:
+        cfg += " maxtimeout=2147483647"
+    ops = []
+    nq = rng.choice([1, 1, 2])
+    for i in range(nq):
+        ops.append("send %d q%d.example IN A rd%s" % (i, i, " edns" if rng.random() < 0.5 else ""))
+    advanced = 0
+    rounds = rng.choice([S * 30, S * 44, S * 52, S * 64, S * T - 1, S * T, rng.randint(S * 30, S * T)])
+    for _ in range(min(rounds, S * T)):
+        ops.append("rspall rcode=%s%s" % (rng.choice(["SERVFAIL", "REFUSED", "NOTIMP"]), ",dup=2" if rng.random() < 0.05 else ""))
+        if rng.random() < 0.05:
+            ops.append("rsp xl rcode=NOERROR,trunc=5")
+        ops.append("proc")
+        if rng.random() < 0.05 and advanced < 200:
+            d = rng.choice([1, 5, 20])
+            advanced += d
+            ops.append("adv %d" % d)
+            ops.append("proc")
+    if rng.random() < 0.5:
+        ops.append("rspall an=A:1.2.3.4")
+        ops.append("proc")
+    ops.append("qlen")
+    return cfg + "|" + ";".join(ops)
+
+
 def gen(rng, tier, n):
     out = []
     for _ in range(n):
         r = rng.random()
-        out.append(gen_flap(rng, tier) if r < 0.12 else gen_cookie(rng, tier) if r < 0.22 else gen_stagger(rng, tier) if r < 0.30 else gen_case(rng, tier))
+        out.append(gen_flap(rng, tier) if r < 0.12 else gen_cookie(rng, tier) if r < 0.22 else gen_stagger(rng, tier) if r < 0.30 else gen_extreme(rng, tier) if r < 0.36 else gen_case(rng, tier))
     return out
